@@ -29,6 +29,13 @@ func init() {
 		e.viper[strings.ToLower(e.goString(a[0], "viper key"))] = a[1].(IfaceV)
 		return nil
 	}
+	I[vp+"Get"] = func(e *Exec, th *Thread, fn *ssa.Function, a []Value) Value {
+		v, ok := e.viperGet(a[0])
+		if !ok {
+			return IfaceV{}
+		}
+		return v
+	}
 	I[vp+"IsSet"] = func(e *Exec, th *Thread, fn *ssa.Function, a []Value) Value {
 		_, ok := e.viperGet(a[0])
 		return e.ctx.Bool(ok)
